@@ -334,7 +334,7 @@ func r113(c *Ctx) {
 				}
 			}
 			// (a table built privately and published afterwards: the Sets need no lock, the publication does)
-			private := !li.holds(cs.instr, lock, modeW) && freshUnpublishedAt(c.World, cs.common().Args[0], cs.instr)
+			private := freshUnpublishedAt(c.World, cs.common().Args[0], cs.instr)
 			c.ob(rule, "RestoreLastSavedState/installs-every-decoded-service", cs.pos(), okAll && (li.holds(cs.instr, lock, modeW) || private) && nCond == 0, true, "every element of the decoded list must be Set, unconditionally, under the write lock")
 			// into a fresh map assigned before
 			fresh := false
